@@ -22,6 +22,7 @@ from harness.core import Corr, Disagreement, Failure, HarnessError, coq_eval
 
 sys.path.insert(0, os.path.join(os.path.dirname(os.path.dirname(os.path.abspath(__file__))), 'impl'))
 import c36_lang as L  # noqa: E402
+import c36_tlang as TL  # noqa: E402
 
 ID = 'C36'
 SRC = ['hail/python/hail/expr/expressions/base_expression.py', 'hail/python/hail/expr/expressions/typed_expressions.py',
@@ -63,6 +64,9 @@ HEADER = ('From HailV Require Import Common.Prelude Typing.Model.\n'
           'Open Scope N_scope.\n'
           'Definition oute (e : fe) := match elab [] e with Some (t, x) => Some (t, x, ir_type [] x) | None => None end.\n'
           'Definition outv (v : pv) := match impute v with Some t => Some (t, has_type t v) | None => None end.\n')
+THEADER = ('From HailV Require Import Common.Prelude Typing.Model Typing.TableModel.\n'
+           'Open Scope N_scope.\n'
+           'Definition outt (p : prog) := match telab p with Some (t, x) => Some (t, x, strict_type x, simple_interval_keys p) | None => None end.\n')
 
 
 def _corpus():
@@ -73,9 +77,14 @@ def _corpus():
     return out
 
 
-def _cases(ctx, n_expr, n_val):
+def _cases(ctx, n_expr, n_val, n_tab=0):
     rng = ctx.rng
     cases = _corpus()
+    if not n_tab:
+        cases = [c for c in cases if c['kind'] != 'table']
+    tg = TL.TGen(rng)
+    for _ in range(n_tab):
+        cases.append({'kind': 'table', 'prog': tg.program()})
     for _ in range(n_expr):
         cases.append({'kind': 'expr', 'prog': L.Gen(rng, budget=rng.choice([4, 6, 8, 12])).program()})
     for i in range(n_val):
@@ -84,7 +93,15 @@ def _cases(ctx, n_expr, n_val):
 
 
 def _run_impl(ctx, cases):
-    res = ctx.run_impl('c36_types.py', {'cases': cases}, timeout=1200)['results']
+    ti = [i for i, c in enumerate(cases) if c['kind'] == 'table']
+    oi = [i for i, c in enumerate(cases) if c['kind'] != 'table']
+    res = [None] * len(cases)
+    if oi:
+        for i, r in zip(oi, ctx.run_impl('c36_types.py', {'cases': [cases[i] for i in oi]}, timeout=1200)['results']):
+            res[i] = r
+    if ti:
+        for i, r in zip(ti, ctx.run_impl('c36_tables.py', {'cases': [cases[i] for i in ti]}, timeout=1200)['results']):
+            res[i] = r
     for c, r in zip(cases, res):
         if 'harness_exc' in r:
             raise HarnessError(f'c36_types.py failed on {json.dumps(c)[:300]}: {r["harness_exc"]}')
@@ -95,8 +112,11 @@ def _run_impl(ctx, cases):
 
 def correspond(ctx):
     sys.setrecursionlimit(100000)
-    cases = _cases(ctx, ctx.scale(1200, 12000), ctx.scale(1200, 12000))
-    res = _run_impl(ctx, cases)
+    allcases = _cases(ctx, ctx.scale(700, 12000), ctx.scale(700, 12000), ctx.scale(350, 4000))
+    allres = _run_impl(ctx, allcases)
+    tcases = [(c, r) for c, r in zip(allcases, allres) if c['kind'] == 'table']
+    cases = [c for c in allcases if c['kind'] != 'table']
+    res = [r for c, r in zip(allcases, allres) if c['kind'] != 'table']
     exprs, namess = [], []
     for c in cases:
         n = L.Names()
@@ -173,19 +193,141 @@ def correspond(ctx):
                     distinct.add(json.dumps([c['v'], mt]))
                 if len(samples) < 6 and isinstance(mt, list) and len(json.dumps(c['v'])) < 160 and 'int64' in json.dumps(mt):
                     samples.append({'value': c['v'], 'imputed': mt})
-    return Corr(evaluations=len(cases), distinct_nontrivial=len(distinct),
+    _correspond_tables(ctx, tcases, dis, bump, samples, distinct)
+    return Corr(evaluations=len(allcases), distinct_nontrivial=len(distinct),
                 rule='corpus + seeded random typed programs (a fraction deliberately mixing numeric types / ill-typed) and Python values '
                      '(nested lists/tuples/Structs with None, bools, ints at the int32/int64 borders, floats, strs); compared with the '
                      'model: accepted or rejected, dtype, emitted IR up to renumbering of generated names, IR type cached and recomputed '
-                     'with deep_typecheck=True; imputed type, literal dtype, typecheck, encodability; non-trivial = distinct emitted IRs '
-                     'containing a conversion, or distinct compound values with their imputed type',
+                     'with deep_typecheck=True; imputed type, literal dtype, typecheck, encodability; Table / MatrixTable programs '
+                     '(structured families: chains of annotate/select/drop/key_by/filter/globals, MatrixTable axes, lookups by point '
+                     'keys, multi-field keys, key prefixes, interval keys with all_matches both ways, MatrixTable rows/cols/entries as '
+                     'source or target, joins): accepted or rejected, reported table type, emitted relational IR up to the numbering '
+                     'of generated names, Coq strict type vs the independent Python strict checker; non-trivial = distinct emitted IRs '
+                     'containing a conversion or a join node, or distinct compound values with their imputed type',
                 samples=samples, disagreements=dis, histograms={'outcome': dict(sorted(hist.items()))},
-                names=['elab~front end', 'fe_type~dtype', 'to_ir~emitted IR', 'ir_type~IR.typ', 'impute~impute_type', 'has_type~typecheck/encode'])
+                names=['elab~front end', 'fe_type~dtype', 'to_ir~emitted IR', 'ir_type~IR.typ', 'impute~impute_type', 'has_type~typecheck/encode',
+                       'telab~front end (tables)', 'reported~Table/MatrixTable types', 'emitted~relational IR', 'strict_type~strict_rel'])
+
+
+JOINS = ('TableLeftJoinRightDistinct', 'TableIntervalJoin', 'MatrixAnnotateRowsTable', 'MatrixAnnotateColsTable', 'TableJoin')
+
+
+def _has_join(term):
+    return term[0][0] in JOINS or any(_has_join(c) for c in term[1])
+
+
+def _py_strict(term):
+    try:
+        return TL.strict_rel(term), None
+    except TL.IllTyped as ex:
+        return None, ex.why
+
+
+def _correspond_tables(ctx, tcases, dis, bump, samples, distinct):
+    exprs, idx, namess = [], [], []
+    for i, (c, r) in enumerate(tcases):
+        n = TL.TNames()
+        try:
+            exprs.append('outt ' + TL.to_coq(c['prog'], n))
+            idx.append(i)
+            namess.append(n)
+        except TL.OutsideModel as ex:
+            bump('table: outside the model (' + str(ex) + ')')
+    model = coq_eval(ctx, THEADER, exprs, shard=120, label='corr-tables') if exprs else []
+    shown = 0
+    for i, m, n in zip(idx, model, namess):
+        c, r = tcases[i]
+        if 'outside' in r or 'ir_outside' in r:
+            if m is not None:
+                dis.append(Disagreement('telab~front end (tables)', c, 'model covers the program', {k: r.get(k) for k in ('outside', 'ir_outside')}))
+            else:
+                bump('table: outside the exported subset')
+            continue
+        if 'rejected' in r:
+            if m is None:
+                bump('table: both reject')
+            else:
+                dis.append(Disagreement('telab~front end (tables)', c, 'model accepts with ' + json.dumps(TL.coq_to_rty(m[1][0], n)), r))
+            continue
+        if m is None:
+            dis.append(Disagreement('telab~front end (tables)', c, 'model rejects', {'reported': r.get('reported')}))
+            continue
+        t_, x_, st, guard = m[1]
+        mt = TL.coq_to_rty(t_, n)
+        mir = TL.canon_uids(TL.coq_to_rir(x_, n))
+        rir = TL.canon_uids(r['ir'])
+        mst = None if st is None else TL.coq_to_rty(st[1], n)
+        if guard is True and mst != mt:
+            raise HarnessError(f'model contradicts its own theorem on {json.dumps(c)[:300]}')
+        pst, why = _py_strict(rir)
+        if mt != r['reported']:
+            dis.append(Disagreement('reported~Table/MatrixTable types', c, mt, r['reported']))
+        elif mir != rir:
+            dis.append(Disagreement('emitted~relational IR', c, mir, rir))
+        elif mst != pst:
+            dis.append(Disagreement('strict_type~strict_rel', c, mst, {'python': pst, 'why': why}))
+        else:
+            bump('table: agree' if guard is True else 'table: agree (model and checker both find the emitted IR ill-typed: known finding)')
+            if _has_join(rir) or 'Apply' in json.dumps(rir):
+                distinct.add(json.dumps(rir))
+            if shown < 3 and _has_join(rir) and len(r['text']) < 900:
+                shown += 1
+                samples.append({'program': c['prog'], 'reported': r['reported'], 'ir': r['text']})
 
 
 # ------------------------------------------------------------------------------------------------ oracle (implementation only)
 
+def _join_root_types(term, acc):
+    """The type each join node gives its root field, by the independent strict rules."""
+    h, cs = term
+    if h[0] in JOINS[:4]:
+        t, _ = _py_strict(term)
+        if t is not None:
+            fs = dict((f, x) for f, x in (t['col'] if h[0] == 'MatrixAnnotateColsTable' else t['row']))
+            acc.append(fs.get(h[1]))
+    for c in cs:
+        if c and isinstance(c[0], list) and c[0] and isinstance(c[0][0], str) and (c[0][0].startswith('Table') or c[0][0].startswith('Matrix')):
+            _join_root_types(c, acc)
+    return acc
+
+
+def _judge_table(c, r):
+    if 'outside' in r:
+        return None
+    if 'rejected' in r:
+        if r['rejected'] == 'AssertionError' and any(w in ('assign_type', 'compute_type', '_compute_type') for w in r.get('where', [])):
+            return Failure('table-frontend-type-assertion', 'the front end computed a type its own IR typing contradicts', c, 'reported type = IR type', r)
+        return None
+    rep_ = r['reported']
+    if r.get('typ') != rep_:
+        return Failure('table-reported-differs-from-ir-typ', 'the dtypes the Table / MatrixTable hands out are not the type of its IR', c, rep_, r.get('typ'))
+    if 'deep_exc' in r:
+        return Failure(f'table-deep-typecheck-fails:{r["deep_exc"]["type"]}',
+                       'recomputing the relational IR\'s type from scratch (deep_typecheck: every value IR re-typed in the environment '
+                       'its node binds, every declared reference type checked) fails', c, rep_, {**r['deep_exc'], 'lookups': r.get('lookups'), 'ir': r.get('text')})
+    if 'deep' in r and r['deep'] != rep_:
+        return Failure('table-reported-differs-from-deep-type', 'the reported type is not the type recomputed from the emitted IR', c, rep_, r['deep'])
+    if 'ir' not in r:
+        return None
+    term = TL.canon_uids(r['ir'])
+    st, why = _py_strict(term)
+    if st is None:
+        return Failure('table-ir-ill-typed:' + why, 'the front end accepts the program and reports a type, but the relational IR it emits has '
+                       'no type under the engine\'s rules (TypeCheck / type constructors would reject it)', c, rep_, {'why': why, 'ir': r.get('text')})
+    if st != rep_:
+        return Failure('table-reported-differs-from-strict-ir-type', 'the reported type is not the type of the emitted IR under the independent strict rules',
+                       c, rep_, {'strict': st, 'ir': r.get('text')})
+    roots = _join_root_types(term, [])
+    for d in r.get('lookups', []):
+        if d != 'outside' and d not in roots:
+            return Failure('lookup-dtype-differs-from-join-field-type', 'the dtype of a lookup expression is not the type the join node gives its field',
+                           c, d, {'join fields': roots, 'ir': r.get('text')})
+    return None
+
+
 def _judge(c, r):
+    if c['kind'] == 'table':
+        return _judge_table(c, r)
     if c['kind'] == 'expr':
         if 'outside' in r:
             return None
@@ -223,21 +365,23 @@ def _judge(c, r):
 
 def oracle(ctx, budget):
     sys.setrecursionlimit(100000)
-    cases = _cases(ctx, ctx.scale(1500, 15000) * budget, ctx.scale(1500, 15000) * budget)
+    cases = _cases(ctx, ctx.scale(800, 15000) * budget, ctx.scale(800, 15000) * budget, ctx.scale(500, 6000) * budget)
     res = _run_impl(ctx, cases)
     fails, nontrivial = [], set()
     for c, r in zip(cases, res):
         f = _judge(c, r)
         if f is not None:
             fails.append(f)
-        elif 'ir' in r and 'Apply' in json.dumps(r['ir']):
+        elif 'ir' in r and ('Apply' in json.dumps(r['ir']) or (c['kind'] == 'table' and _has_join(r['ir']))):
             nontrivial.add(json.dumps(r['ir']))
         elif isinstance(r.get('imputed'), list):
             nontrivial.add(json.dumps([c['v'], r['imputed']]))
     fails.sort(key=lambda f: len(json.dumps(f.case)))
     return fails, {'evaluations': len(cases), 'distinct_nontrivial': len(nontrivial),
                    'rule': 'oracle: dtype = IR.typ = deep-recomputed type = type under an independent strict IR checker; literals build, '
-                           'encode, decode, re-encode identically and pass HailType.typecheck'}
+                           'encode, decode, re-encode identically and pass HailType.typecheck; tables / matrix tables: reported dtypes = '
+                           'tir.typ = type recomputed with deep_typecheck = type under the independent strict relational rules, and the dtype '
+                           'of every lookup expression = the type its join node gives the joined field'}
 
 
 def replay(ctx, doc):
